@@ -49,7 +49,7 @@ ASSUMPTIONS = [
 REQUIRED = ["union_volume_checked", "level1_checked", "level2_checked", "levels_3_4", "levels_5_9",
             "two_arm_roots", "two_arm_sampled_levels", "overlapping_neighbours",
             "tangent_neighbours", "disjoint_neighbours", "growing_radii", "tapering_radii",
-            "frontend_checked", "named_levels_checked"]
+            "frontend_checked", "named_levels_checked", "same_skeleton_other_radii"]
 FLOOR = {"quick": 700, "thorough": 14000}
 SHARDS = {"quick": 8, "thorough": 16}
 TIMEOUT = {"quick": 400, "thorough": 3000}
@@ -114,7 +114,8 @@ def build(case):
     typ = np.full(len(z), 3, dtype=np.int32)
     typ[0] = 1
     t = Tree(len(z), pid=pid.copy(), type=typ, x=xyz[:, 0].copy(), y=xyz[:, 1].copy(),
-             z=xyz[:, 2].copy(), r=r32.copy())
+             z=xyz[:, 2].copy(), r=r32.copy(),
+             source="/data/cells/neuron.swc" if case["seed"] % 2 else "")
     # positions as the library sees them, projected back on the line
     p = xyz.astype(np.float64)
     zz = (p - p[0]) @ u
@@ -246,6 +247,30 @@ def exec_union(ctx, case):
             ctx.count("levels_3_4")
         else:
             ctx.count("levels_5_9")
+        if acc == case["levels"][0] and not case.get("frontend"):
+            # the same skeleton with other radii (thinner: still admissible), as a second tree
+            # object and as an in-place edit of the first: nothing computed before may be reused
+            k_ = 0.5 if case["seed"] % 4 < 2 else 0.8
+            r2 = (r * k_).astype(np.float32).astype(np.float64)
+            want2 = true_union(zz, r2, pid)
+            if case["seed"] % 2:
+                t2 = tree.copy()
+                t2.ndata["r"] = (tree.ndata["r"].astype(np.float64) * k_).astype(np.float32)
+            else:
+                t2 = tree
+                for i_ in range(len(r2)):
+                    t2.node(i_).r = np.float32(r2[i_])
+            got2 = float(get_volume(t2, accuracy=acc))
+            ctx.count("same_skeleton_other_radii")
+            if not np.isfinite(got2) or abs(got2 - want2) > RTOL * want2:
+                return ctx.violation(
+                    "stale-volume",
+                    f"accuracy={acc!r}: after the radii were multiplied by {k_} on the same "
+                    f"skeleton the reported volume is {got2:.8g}, the union has {want2:.8g} (the "
+                    f"first tree reported {got:.8g})", case)
+            if t2 is tree:
+                r, want = r2, want2
+                got = got2
         tol = RTOL * want * (2 if case.get("frontend") else 1)
         if not np.isfinite(got) or abs(got - want) > tol:
             return ctx.violation(
@@ -271,6 +296,13 @@ def exec_sums(ctx, case):
         if p >= 0:
             h = float(np.linalg.norm(xyz[i] - xyz[p]))
             v2 += np.pi * h * (r[i] ** 2 + r[i] * r[p] + r[p] ** 2) / 3
+    # a second tree with the same skeleton and other radii first (memo hazards)
+    if case["tree"]["seed"] % 3 == 0 and not case.get("frontend"):
+        t0 = tree.copy()
+        t0.ndata["r"] = (t0.ndata["r"] * np.float32(1.7)).astype(np.float32)
+        for acc in (1, 2):
+            get_volume(t0, accuracy=acc)
+        ctx.count("same_skeleton_other_radii")
     for acc, want, cnt in ((1, v1, "level1_checked"), (2, v2, "level2_checked")):
         try:
             if case.get("frontend"):
